@@ -52,6 +52,20 @@ CLAIMS["C04"] = dict(
     technique="TLA+ step relations evaluated by TLC on recorded implementation steps (trace validation) over TLC-enumerated graphs and sample files",
     design="DESIGN.md §3.1, §4 C04")
 
+CLAIMS["C15"] = dict(
+    category="fault_enumeration",
+    text=("The fault space is defined in TLA+: NifFault.tla enumerates Corrupt(reference field, value) for every serialised reference of "
+          "every sample file (byte offsets located through the NiRef hook) over the kinds the property lists - empty, count, beyond "
+          "count, self, each ancestor, in-range incl. wrong type - and NifGraphMC (alphabet sort, Corrupt) enumerates whole graphs of "
+          "<= 3 blocks with dangling / ill-typed / cyclic references. The harness injects each fault (1..3 simultaneous) and runs load, "
+          "the full query battery, copy + assign, sort, default save, reload and the battery again in a forked child under ASan+UBSan "
+          "with a 25 s watchdog; TLC validates the recorded post-fault contract and no spec action accepts a Crash/Timeout record."),
+    note=("The decisive observation for 'no memory error / UB / hang' is the sanitizer and the watchdog, not TLC (DESIGN.md §8). UBSan's "
+          "alignment check is off: nifly reads packed on-disk structs through references by design, which fires on unmodified inputs. "
+          "Quick tier samples the enumerated faults (seeded); files above 100 blocks are capped."),
+    technique="TLC-enumerated fault space (TLA+ Corrupt action), byte-level injection, sanitizer + watchdog observation, TLC validation of the post-fault contract",
+    design="DESIGN.md §4 C15")
+
 NOT_YET = {}
 
 
